@@ -129,6 +129,9 @@ def oracle_container(case, rec):
     res = []
     edge = case.get('edge', np.pi / 12)
     ekw = {'phase_edge': edge} if 'edge' in case else {}
+    if case.get('cmode'):
+        ekw['mode'] = case['cmode']          # the container's iteration mode; the quality flag is about the cycles themselves
+        rec.cls('container mode=' + case['cmode'])
     rec.cls('phase_edge=%s' % ('default' if 'edge' not in case else 'given'))
     for cache in (True, False):
         try:
@@ -229,7 +232,7 @@ container_strategy = st.fixed_dictionaries({
     'p': st.one_of(gens.synth_phase(max_n=300, max_cols=1).map(lambda a: a[:, 0]),
                    gens.monotone_cycles_phase(2, 8, 3, 40).map(lambda t: t[0]),
                    gens.short_phase(30, 2))},
-    optional={'edge': st.sampled_from(EDGES)})
+    optional={'edge': st.sampled_from(EDGES), 'cmode': st.sampled_from(['cycle', 'augmented', 'augmented'])})
 
 CLAUSES = [
     Clause('C13.exhaustive', oracle_vector, enumerate=enum_alphabet, quick=None, thorough=None,
